@@ -218,6 +218,18 @@ def handle (op : String) (a : Json) : Except String Json := do
         | none => Json.mkObj [("outs", arr acc.reverse), ("enabled", jB false)]
         | some (s1, outs) => go s1 (arr (outs.map outJson) :: acc) es
     return ok (go State.init [] evs)
+  | "launcher" =>
+    -- ProcessLauncher model: n nodes of one host in installation directories 1..n; which node's own daemon does each
+    -- returned node track, how many SIGTERM did each daemon get, which daemons still run after stop
+    let n ← getNat a "n"
+    let dirs := (List.range n).map (· + 1)
+    let w0 : Launcher.World := ⟨0, fun _ => none, 100, [], []⟩
+    let r := Launcher.startAll w0 dirs
+    let w2 := Launcher.stopAll r.1 r.2
+    let own : List Nat := dirs.map (fun d => (r.1.pidFile d).getD 0)
+    let owners := r.2.map (fun nd => match own.idxOf? nd.2 with | some i => toJson i | none => Json.null)
+    return ok (Json.mkObj [("owners", arr owners), ("terms", arr (own.map (fun p => jN (w2.terms.count p)))),
+      ("running", arr (own.map (fun p => jB (w2.running.contains p))))])
   | _ => throw s!"unknown op {op}"
 
 end Drivers.Mechanic
